@@ -87,6 +87,34 @@ def followPrev (size orphan overlap : Int) (s : Seq) : Nat → Int → List Int
             (opt 0 (start - 1 + overlap) size orphan s).1
       else [start]
 
+/-! ### The batch lists `next-batches` / `previous-batches` (`sequence_variables.next_batches`, `previous_batches`)
+
+The `while` loops of the source, with explicit fuel (`Props/C11.batches_fuel`: `len` iterations always suffice, more fuel
+never changes the list).  One entry per listed batch: `(batch-start-index, batch-end-index, batch-size)`; `end_` /
+`start` are the 1-based `sequence-step-end` / `sequence-step-start` of the window being displayed. -/
+
+def nextBatches (sz orphan overlap : Int) (s : Seq) : Nat → Int → List (Int × Int × Int)
+  | 0, _ => []
+  | fuel + 1, end_ =>
+    if end_ < s.len then
+      let o := opt (end_ + 1 - overlap) 0 sz orphan s
+      if o.2.1 ≤ end_ then []
+      else (o.1 - 1, o.2.1 - 1, o.2.1 + 1 - o.1) :: nextBatches sz orphan overlap s fuel o.2.1
+    else []
+
+/-- the loop of `previous_batches` (nearest batch first; the method reverses the list at the end) -/
+def prevBatchesRev (sz orphan overlap : Int) (s : Seq) : Nat → Int → List (Int × Int × Int)
+  | 0, _ => []
+  | fuel + 1, start =>
+    if start > 1 then
+      let o := opt 0 (start - 1 + overlap) sz orphan s
+      if o.1 ≥ start then []
+      else (o.1 - 1, o.2.1 - 1, o.2.1 + 1 - o.1) :: prevBatchesRev sz orphan overlap s fuel o.1
+    else []
+
+def prevBatches (sz orphan overlap : Int) (s : Seq) (fuel : Nat) (start : Int) : List (Int × Int × Int) :=
+  (prevBatchesRev sz orphan overlap s fuel start).reverse
+
 /-! ### Lazy sequences (`SequenceFromIter`): the pull log -/
 
 /-- State of a `SequenceFromIter` over an iterator that yields `src` items
